@@ -47,8 +47,18 @@ def handle : List String → Verdict
           else if oracleMiss then some "oracle miss"
           else if mp == ip && mv == iv && mtc == tc && itemsOk then none
           else some s!"impl=({Bytes.toHex ip},{Bytes.toHex iv}) model=({Bytes.toHex mp},{Bytes.toHex mv}) templ.SanitizeCSS impl={Bytes.toHex tc} model={Bytes.toHex mtc} styleItemsAgree={itemsOk}",
-        predfail := if pairSafe ip iv then none else
-          some s!"sanitised pair is not safely one declaration: {Bytes.toHex ip}:{Bytes.toHex iv}",
+        predfail :=
+          if !pairSafe ip iv then some s!"sanitised pair is not safely one declaration: {Bytes.toHex ip}:{Bytes.toHex iv}"
+          else
+            -- the style-attribute item as the implementation wrote it (map form and key/value form): inside style="…" it
+            -- must not be able to end the attribute, and the browser must read back exactly name:value;
+            let badItem := [m?, kv?].find? fun it => match it with
+              | some item => item.contains 34 || item.contains 60 || item.contains 62 || item.contains 39 ||
+                             Html.decodeRefs item != ip ++ [58] ++ iv ++ [59]
+              | none => false
+            match badItem with
+            | some (some item) => some s!"style attribute item can end the attribute or does not decode to its declaration: {Bytes.toHex item}"
+            | _ => none,
         nontrivial := kept && v.any (fun b => !(isAlpha b)),
         tags := ["class:" ++ cls, if kept then "kept" else "replaced"],
         sig := s!"css;{cls}" }
